@@ -306,6 +306,8 @@ def gen_drive(rng):
         # submits to current AND deposed leaders, message loss between phases -- the states in which
         # logs diverge (stale suffixes, old-term entries on a majority, competing candidates)
         full = (1 << n) - 1
+        if rng.random() < 0.8:
+            steps.append(["ELECT", rng.randrange(n), full])
         for _ in range(rng.randint(4, 22)):
             r = rng.random()
             mask = full if rng.random() < 0.5 else rng.randrange(1 << n)
@@ -476,14 +478,20 @@ class Cluster:
                 return
             ldr = ls[s[1] % len(ls)]
             yield ["H", ldr]
-            for d in range(self.n):
-                j = self._find(d, "AE", ldr)
-                if j is not None and d not in self.crashed and (s[2] >> d) & 1:
-                    yield ["D", j]
-            for d in range(self.n):
-                j = self._find(ldr, "AR", d)
-                if j is not None and (s[3] >> d) & 1:
-                    yield ["D", j]
+            for _round in range(8):          # a rejected AppendEntries is retried at once with a lower prev index
+                moved = False
+                for d in range(self.n):
+                    j = self._find(d, "AE", ldr)
+                    if j is not None and d not in self.crashed and (s[2] >> d) & 1:
+                        moved = True
+                        yield ["D", j]
+                for d in range(self.n):
+                    j = self._find(ldr, "AR", d)
+                    if j is not None and (s[3] >> d) & 1:
+                        moved = True
+                        yield ["D", j]
+                if not moved:
+                    break
         elif k == "FLUSH":
             while self.bag:
                 yield ["X", 0]
@@ -766,7 +774,7 @@ TRUSTED = [
     "timers are outputs only (the cluster model lets a timeout or heartbeat fire at any moment)",
 ]
 
-COQ_FILES = ["C11/Model.v", "C11/NodeProofs.v", "C11/Election.v", "C11/Refute.v", "C11/LogProofs.v", "C11/Props.v"]
+COQ_FILES = ["C11/Model.v", "C11/NodeProofs.v", "C11/Election.v", "C11/Refute.v", "C11/LogProofs.v", "C11/Progress.v", "C11/Props.v"]
 
 
 class SmallShards:
@@ -787,7 +795,7 @@ class SmallShards:
 def run(ctx):
     ctx.prove(COQ_FILES, allowed_axioms=(), trusted_base=TRUSTED)
     stats = []
-    for fam, k, shard in zip(FAMILIES, [ctx.n(300, 9000), ctx.n(32, 700), ctx.n(12, 240)], [100, 8, 6]):
+    for fam, k, shard in zip(FAMILIES, [ctx.n(300, 6000), ctx.n(32, 400), ctx.n(12, 120)], [100, 8, 6]):
         fam.parallel = not ctx.quick          # the quick tier's implementation runs take ~2 s in total
         stats.append(run_family(SmallShards(ctx, shard), fam, k))
         ctx.log(f"family {fam.name}: {stats[-1]['cases']} cases, mismatches={stats[-1]['mismatches']}, "
